@@ -1,4 +1,7 @@
 """C02 -- processor-level property; see proccheck.py / procgen.py / coq/Processor.v / coq/ProcMonitor.v."""
+import random
+
+from props import c07
 import proccheck
 import procgen
 import statuscheck
@@ -13,3 +16,7 @@ def run(chk, replay=None):
                   extra_histories=lambda rng: procgen.gen_histories(rng, 1, {"bulkfail": 1}) +
                   procgen.gen_histories(rng, nbulk - 1, {"bulk": 1, "bulkfail": 1}))
     statuscheck.run_stage(chk)
+    # metric payloads: the attempt counter across MergeFailed / ApplyRules, below and above the table limit
+    c07.run_table_cases(chk, c07.retry_cases(random.Random(chk.seed + 2)), "c02tab",
+                        "a carried-over metric table is not re-sent / given up as specified: 1 + 5 attempts, whether or not "
+                        "rename rules apply and whether or not forced metrics have pushed the table past its limit")
